@@ -324,6 +324,10 @@ impl File {
 
     #[cfg(pearl_verif)]
     fn verif_write_all_at(file_inner: &FileInner, op: crate::verif::IoOp, offset: u64, buf: &[u8]) -> IOResult<()> {
+        if op == crate::verif::IoOp::Write {
+            // append: the offset was reserved by the caller just before
+            crate::verif::io(crate::verif::IoOp::Reserve, &file_inner.path, None, offset, buf.len() as u64)?;
+        }
         if let Some(r) = crate::verif::write(op, &file_inner.path, &file_inner.std_file, offset, &[buf]) {
             return r;
         }
